@@ -133,7 +133,7 @@ def run(model: Model, rep: Report) -> None:
     r4.check("isinstance(obj,PDFStream)and" in s5 and "self.device.begin_figure(iobjid,(0,0,1,1),MATRIX_IDENTITY)self.device.render_image(iobjid,obj)self.device.end_figure(iobjid)" in s5, site(ei), ei.qualname, "EI hands the inline image to the device inside a unit figure", why="changed")
     # the guard of EI and the reader of the image dictionary agree on the spellings of a key (Table 93: an inline image may use
     # the abbreviated or the full key)
-    r16 = rep.rule("C18-R16", "SIBLING", "inline images: the EI guard accepts every spelling of Width / Height that LTImage reads (abbreviated and full)", 2)
+    r16 = rep.rule("C18-R16", "SIBLING", "inline images: the EI guard accepts every spelling of Width / Height that LTImage reads (abbreviated and full)", 3)
     li0 = model.func("pdfminer.layout.LTImage.__init__")
     spell = []
     for c in ast.walk(li0.node):
@@ -152,6 +152,45 @@ def run(model: Model, rep: Report) -> None:
         r16.check(not missing or not (set(ks) & tested), site(ei, guards[0]), ei.qualname, f"guard of EI tests {sorted(set(ks) & tested)} of the spellings {ks}", why=f"LTImage reads the size under {ks} but the guard only lets {sorted(set(ks) & tested)} through: an inline image written with {missing} is dropped without a trace")
         if not (set(ks) & tested):
             r16.violation(site(ei, guards[0]), ei.qualname, unparse(guards[0])[:100], f"the guard does not test {ks} at all")
+    # exactly: the image is handed on iff (W or Width) and (H or Height) - decided by evaluating the guard for all 16 ways the
+    # four keys can be present
+    def _ev(e: ast.AST, present: set) -> Optional[bool]:
+        if isinstance(e, ast.BoolOp):
+            vs = [_ev(v, present) for v in e.values]
+            if any(v is None for v in vs):
+                return None
+            return all(vs) if isinstance(e.op, ast.And) else any(vs)
+        if isinstance(e, ast.UnaryOp) and isinstance(e.op, ast.Not):
+            v = _ev(e.operand, present)
+            return None if v is None else not v
+        if isinstance(e, ast.Call) and (dotted(e.func) or "") == "isinstance":
+            return True
+        if isinstance(e, ast.Compare) and len(e.ops) == 1:
+            l, op, r = e.left, e.ops[0], e.comparators[0]
+            if isinstance(op, (ast.In, ast.NotIn)) and isinstance(l, ast.Constant) and isinstance(l.value, str):
+                v = l.value in present
+                return v if isinstance(op, ast.In) else not v
+            if isinstance(op, (ast.Is, ast.IsNot)) and isinstance(r, ast.Constant) and r.value is None and isinstance(l, ast.Call) and isinstance(l.func, ast.Attribute) and l.func.attr == "get_any" and l.args and isinstance(l.args[0], ast.Tuple):
+                ks = {x.value for x in l.args[0].elts if isinstance(x, ast.Constant)}
+                v = bool(ks & present)
+                return v if isinstance(op, ast.IsNot) else not v
+        return None
+
+    import itertools as _it
+
+    keys4 = ["W", "Width", "H", "Height"]
+    wrong = []
+    undecided = False
+    for bits in _it.product([False, True], repeat=4):
+        present = {k for k, b in zip(keys4, bits) if b}
+        got = _ev(guards[0], present)
+        if got is None:
+            undecided = True
+            break
+        want = bool({"W", "Width"} & present) and bool({"H", "Height"} & present)
+        if got != want:
+            wrong.append(sorted(present))
+    r16.check(not undecided and not wrong, site(ei, guards[0]), ei.qualname, "the guard is true exactly when a width key and a height key are present, in any mix of spellings (all 16 combinations evaluated)", why=("the guard has a form the evaluator does not know" if undecided else f"wrong for the key sets {wrong[:4]}: an inline image that mixes the spellings (/W with /Height) is dropped"))
     # ---------------------------------------------------------------- R5 (shared with C15-R3)
     from .c15 import unique_name_rule
 
@@ -164,7 +203,9 @@ def run(model: Model, rep: Report) -> None:
         if isinstance(n, ast.If) and isinstance(n.test, ast.Compare) and unparse(n.test.left) == "pred":
             tests.append("".join(unparse(n.test).split()))
     r7.check(sorted(tests) == ["pred==1", "pred==2", "pred>=10"], site(dec), dec.qualname, "branches on the predictor code: == 1, == 2, >= 10", why=f"{sorted(tests)}: with /Predictor 10 every row still starts with its PNG tag byte, so treating 10 as `no predictor` leaves the tags in the samples and shears the image")
-    from .c03 import predictor_reached_instance
+    from .c03 import filters_resolved_instance, predictor_reached_instance
+
+    filters_resolved_instance(model, r7)
 
     predictor_reached_instance(model, r7)
     # ---------------------------------------------------------------- R8: inline data scanner details
